@@ -3,7 +3,7 @@
 (* universe (SchedUniverse) that are legal and acyclic, printed as JSON.                          *)
 (* Run:  tlc -simulate num=1 -depth N+1 -seed S                                                   *)
 EXTENDS SchedUniverse, Json
-CONSTANTS NP, Styles, VarImps, FileModes, SeedOpts, PruneOpts
+CONSTANTS NP, Styles, VarImps, FileModes, SeedOpts, PruneOpts, Ifcs
 VARIABLE n
 \* acyclic call relations only (forward pairs + self recursion of p2)
 FwdPairs == {<<i, j>> \in (1..NP) \X (1..NP) : i < j} \cup {<<2, 2>>}
@@ -14,10 +14,11 @@ V(S) == IF n < 0 THEN {} ELSE S
 GNext ==
   \E f \in {RandomElement(V(Assigns(NP)))} : \E R \in {RandomElement(V(SUBSET FwdPairs))} :
   \E st \in {RandomElement(V(Styles))} : \E vi \in {RandomElement(V(VarImps))} : \E fm \in {RandomElement(V(FileModes))} :
+  \E ifc \in {RandomElement(V(Ifcs))} :
   \E so \in {RandomElement(V(SeedOpts))} : \E r \in {RandomElement(V(1..(Cardinality(PruneOpts) + 3)))} :
   \* (the three "global disable + routine-level override" options 19..21 are drawn twice as often as the others)
   \E po \in {IF r <= Cardinality(PruneOpts) THEN r ELSE 19 + ((r - Cardinality(PruneOpts) - 1) % 3)} :
-    LET P == MkProject(NP, f, R, st, vi, fm)
+    LET P == MkProjectI(NP, f, R, st, vi, fm, ifc)
     IN /\ n' = n + 1
        /\ IF LegalProject(P) /\ AcyclicProject(P)
           THEN LET C == ConfOf(P, so, po)
